@@ -426,6 +426,12 @@ class ProdSign(Driver):
             return BAD("exception", "generators constructed", gens, clause="construct")
         g = gens[cfg]
         calls = 1
+        # the numbers this signature will invert (nonce, s, r) are first inverted on the OTHER production curve's generator:
+        # modular inverses must not be shared between generators of different order
+        ok_o, ogens = _try(prod_generators, "secp256r1" if case["curve"] == "secp256k1" else "secp256k1")
+        if ok_o and case["curve"] in ("secp256k1", "secp256r1"):
+            for v in (sg0["k"], sg0["s"], sg0["r"], n - sg0["s"]):
+                _try(ogens[cfg].inverse, v)
         for other in (DECOY_ORDER_A, DECOY_ORDER_B):
             if 1 <= d < other:
                 _try(deterministic_generate_k, other, d, z)       # see C01.nonce: earlier derivations must not matter
